@@ -67,4 +67,11 @@ theorem fft2_dim_ok_eq (d : Int) : fft2_dim_ok d = dimOk d := by
 theorem ifft2_dim_ok_eq (d : Int) : ifft2_dim_ok d = dimOk d := by
   simp only [ifft2_dim_ok, dimOk, Bool.and_true]
 
+/-- `verify_fft_dtype_possible` (single precision only; real float32 only for power-of-two lengths) -/
+theorem verify_fft_dtype_possible_eq (dt : DType) (lens : List Nat) :
+    verify_fft_dtype_possible (dt == .complex64) (dt == .float32) (lens.all is_power_of_two) = dtypeOk dt lens := by
+  have : is_power_of_two = isPow2 := by
+    funext n; simp only [is_power_of_two, isPow2]
+  rw [this]; rfl
+
 end DirectVerif.Bridge.C01
